@@ -31,9 +31,11 @@ def harness_T(eng, ctx):
     eng.assume(w / 10 != zmax)        # the pole of the formula (numpy returns inf there)
     T = tm.PeatclsmTransmissivity(K, alpha, zmax)
     above = bool(w / 10 > zmax)
+    levels = nplite.array([w, w - 10])
     try:
         val = T(w)
-        arr = T(nplite.array([w, w - 10]))
+        arr = T(levels)
+        again = T(levels)        # the caller keeps its array of levels and evaluates it once more
     except ValueError as e:
         eng.prove(above, 'C16: transmissivity is refused only above zeta_max', detail=str(e)[:80])
         eng.note({'t': 'reached'})
@@ -50,6 +52,8 @@ def harness_T(eng, ctx):
     eng.prove(arr[0] == want, 'C16: array argument gives the same value')
     want2 = K * eng.pow(zmax - (w - 10) / 10, 1 - alpha) / (100 * (alpha - 1))
     eng.prove(arr[1] == want2, 'C16: array argument, second element')
+    eng.prove(levels[0] == w and levels[1] == w - 10, "C16: the caller's array of levels is left as it was")
+    eng.prove(again[0] == want and again[1] == want2, 'C16: a second evaluation of the same array gives the same values')
     eng.note({'t': 'reached'})
 
 
@@ -71,7 +75,23 @@ def replay_T(m):
         return True, info
     want = K * (zm - w / 10) ** (1 - al) / (100 * (al - 1))
     info['observed'] = {'value': v, 'formula': want}
-    return abs(v - want) > 1e-9 * max(1.0, abs(want)), info
+    bad = abs(v - want) > 1e-9 * max(1.0, abs(want))
+    # a float64 array the caller keeps, evaluated twice
+    try:
+        T = real.PeatclsmTransmissivity(K, al, zm)
+        levels = np.array([w, w - 10.0])
+        first = [float(x) for x in T(levels)]
+        kept = [float(x) for x in levels]
+        second = [float(x) for x in T(levels)]
+        want2 = K * (zm - (w - 10.0) / 10) ** (1 - al) / (100 * (al - 1))
+        info['observed'].update(array_first=first, array_levels_afterwards=kept, array_second=second)
+        tol = lambda a, b: abs(a - b) > 1e-9 * max(1.0, abs(b))
+        if kept != [w, w - 10.0] or tol(first[0], want) or tol(first[1], want2) or tol(second[0], want) or tol(second[1], want2):
+            bad = True
+    except Exception as e:
+        info['observed']['array_evaluation'] = '%s: %s' % (type(e).__name__, e)
+        bad = True
+    return bad, info
 
 
 # ---- specific yield ------------------------------------------------------------------------------
